@@ -1,7 +1,7 @@
 (* C11 — Cell boundary is a well-formed ring.
    Property theorems only: full statement, `exact <lemma>`, Print Assumptions.
 
-   What is proved here holds for EVERY number instance [ops T] (ideal reals, interval enclosures, ...),
+   FIRST PART.  What is proved here holds for EVERY number instance [ops T] (ideal reals, interval enclosures, ...),
    purely from the list / integer structure of the model of cell_to_boundary (Geo/Cell.v):
    - point count: vertices * n (+ 1 when a closed ring is requested), vertices = 3 for the
      resolution-1 (quintant) cells and 5 otherwise, n = requested subdivision or the default;
@@ -14,13 +14,51 @@
    A result [None] of the model means "a comparison was undecided" and occurs only in the interval
    instance; all statements are about the successful answers [Some (Ok _)].
 
-   NOT proved here (geometric; covered by the certified samples and by search):
-   - counter-clockwise orientation of the ring;
-   - the cell centre lies inside the ring;
+   PLANAR HALF of "the ring is counter-clockwise and the reported centre lies inside it" (second part of this
+   file, theorems C11_planar_*; exact rational instance QInst, face coordinates; Geo/RingPlanar.v).
+   Conventions of the code, proved as C11_planar_area_convention / C11_planar_cross_convention:
+     get_area l = - sum (xi * yj - xj * yi), so the winding kept by the shape constructor (get_area > 0, called
+     "counter-clockwise" in pentagon.rs) is CLOCKWISE for x to the right and y upwards (shoelace l < 0); every entry
+     of [crosses l p] is - (v2 - v1) x (p - v1), positive when p is to the right of the edge v1 -> v2; the two agree.
+   Proved for the outline of EVERY cell of resolution >= 0 (face pentagon, quintant triangles q = 0..4 with the f64
+   rotation matrices, pentagons of every curve depth >= 0, every anchor - in particular s_to_anchor s n o for all
+   n, o, s - and every quintant 0..4):
+   - get_area > 0 (shoelace < 0): one and the same winding for all cells, never re-wound;
+   - strictly convex with that winding: the sign matrix of (edge j) x (vertex i) is the circulant pattern [pat n]
+     (zero on the two edges through the vertex, positive on all others); in particular every vertex is on the inner
+     side of every edge line;
+   - the centre [get_center] (vertex mean; for the triangle the centroid) has all cross products > 0 (strictly
+     inside), hence contains_point = Some true;
+   - subdivision (split_edges, any n): the subdivided outline is NOT reversed by the winding check, it has the same
+     signed area, and each of its points lies on the boundary of the outline (all cross products >= 0, one = 0);
+     every sub-edge is a positive fraction of an outline edge, so a point strictly inside the outline - in
+     particular the centre - is strictly inside the subdivided outline (all cross products > 0, contains_point).
+   Method: all signs are invariant under p |-> M ((p + t) * k) with det M > 0, k > 0; 32 local shapes (five boolean
+   tests of the anchor), 5 triangles and the face are checked by computation.
+
+   List level, any number instance (C11_ring_reversed_outline): the open ring is the REVERSE of
+     outline -> split_edges -> unprojection point by point -> longitude normalisation (whole turns only).
+   So: the planar list is clockwise in face coordinates (x right, y up), and the reported lon/lat ring is the image
+   of that list read backwards (the `reverse()` patch in cell_to_boundary).
+
+   NOT proved (what remains for the spherical statement):
+   - the unprojection face plane -> (longitude, latitude), v |-> to_lon_lat (dodec_inverse v origin), is injective on
+     the cell and orientation-PRESERVING from (x, y) to (lon, lat) (positive Jacobian; for the two polar faces and
+     cells that contain a pole or cross the antimeridian the statement has to be made on the sphere, seen from
+     outside, not in the lon/lat chart).  With it the clockwise planar outline maps to a clockwise curve and the
+     final reversal makes the ring counter-clockwise; without it nothing is claimed about the ring's orientation;
+   - the image of the straight subdivided edges is only sampled: the ring is the polygon through the unprojected
+     subdivision points, not the image of the planar outline;
+   - that the reported centre cell_to_lonlat = unprojection of get_center lies inside that spherical polygon
+     (follows from the planar containment once the unprojection is shown to be an orientation-preserving
+     homeomorphism of the cell onto its image, up to the sampling error of the edges);
+   - for the interval/real instances: that the shape constructor takes the same branch as in QInst (the rational
+     instance uses the exact f64 constants, so get_area is far from 0: A0 / 4^hr * det);
    - all longitudes of a ring lie in one 180-degree window around the ring centre;
    - latitudes are in [-90, 90];
    - that the answer is not [None] / that decisions are settled (real instance: by totality of the
-     real comparisons; interval instance: per sample). *)
+     real comparisons; interval instance: per sample).
+   Orientation and containment on the sphere are covered by the certified samples and by search only. *)
 From Coq Require Import ZArith List Bool.
 From A5 Require Import Base.Outcome Num.NumOps Id.Codec Geo.Tiling Geo.Cell Geo.BoundaryProofs.
 Import ListNotations.
@@ -218,3 +256,134 @@ Theorem C11_interval_boundary_sound : forall id segs closed,
   sound_opt (rout (Forall2 encl2)) (cell_to_boundary IvInst id segs closed) (cell_to_boundary RInst id segs closed).
 Proof. exact cell_to_boundary_sound. Qed.
 Print Assumptions C11_interval_boundary_sound.
+
+(* ================================================================== planar half: orientation and centre *)
+From Coq Require Import QArith.
+From A5 Require Import Num.QInst Hilbert.Hilbert Hilbert.ChildProofs Geo.RingPlanar.
+Local Open Scope Q_scope.
+
+(* The conventions.  [shoelace l] = sum (xi * yj - xj * yi) over the closed cycle: twice the signed area,
+   counter-clockwise positive for x to the right and y upwards. *)
+Theorem C11_planar_area_convention : forall l : list (Q * Q), get_area QInst l == - shoelace l.
+Proof. exact area_shoelace. Qed.
+Print Assumptions C11_planar_area_convention.
+
+(* [crosses l p] lists, edge by edge (v1, v2), the number - ((v2 - v1) x (p - v1)). *)
+Theorem C11_planar_cross_convention : forall (l : list (Q * Q)) (p : Q * Q),
+  crosses QInst l p = map (fun e => cross_e e p) (edges l) /\
+  forall e : (Q * Q) * (Q * Q),
+    cross_e e p == - ((fst (snd e) - fst (fst e)) * (snd p - snd (fst e)) - (snd (snd e) - snd (fst e)) * (fst p - fst (fst e))).
+Proof. exact (fun l p => conj (crosses_edges l p) (fun e => cross_e_std e p)). Qed.
+Print Assumptions C11_planar_cross_convention.
+
+(* Cell pentagons: every curve depth hr >= 0, every quintant 0..4, EVERY anchor. *)
+Theorem C11_planar_cell_outline : forall (hr q : Z) (a : anchor), (0 <= hr)%Z -> (0 <= q <= 4)%Z ->
+  exists l, get_pentagon_vertices QInst hr q a = Some l /\
+    length l = 5%nat /\ 0 < get_area QInst l /\ shoelace l < 0 /\
+    Forall (fun v => Forall (fun c => 0 <= c) (crosses QInst l v)) l /\
+    vertex_signs l = pat 5 /\
+    Forall (fun c => 0 < c) (crosses QInst l (get_center QInst l)) /\
+    contains_point QInst l (get_center QInst l) = Some true.
+Proof. exact cell_pentagon_facts. Qed.
+Print Assumptions C11_planar_cell_outline.
+
+(* The cells of the property: curve depth n (1..29), orientation o (0..5), position s (< 4^n), quintant q.
+   No condition on n, o, s is needed. *)
+Theorem C11_planar_cell_outline_s : forall (n : nat) (q o s : Z), (0 <= q <= 4)%Z ->
+  exists l, get_pentagon_vertices QInst (Z.of_nat n) q (s_to_anchor s n o) = Some l /\
+    length l = 5%nat /\ 0 < get_area QInst l /\ shoelace l < 0 /\
+    Forall (fun v => Forall (fun c => 0 <= c) (crosses QInst l v)) l /\
+    vertex_signs l = pat 5 /\
+    Forall (fun c => 0 < c) (crosses QInst l (get_center QInst l)) /\
+    contains_point QInst l (get_center QInst l) = Some true.
+Proof. exact cell_pentagon_facts_s. Qed.
+Print Assumptions C11_planar_cell_outline_s.
+
+(* The strict-convexity pattern, written out: row i = vertex i against the edges 0..n-1. *)
+Theorem C11_planar_pattern :
+  pat 5 = [[Eq; Gt; Gt; Gt; Eq]; [Eq; Eq; Gt; Gt; Gt]; [Gt; Eq; Eq; Gt; Gt]; [Gt; Gt; Eq; Eq; Gt]; [Gt; Gt; Gt; Eq; Eq]] /\
+  pat 3 = [[Eq; Gt; Eq]; [Eq; Eq; Gt]; [Gt; Eq; Eq]] /\
+  (forall (l : list (Q * Q)), vertex_signs l = map (fun v => map (fun c => c ?= 0) (crosses QInst l v)) l).
+Proof. exact (conj eq_refl (conj eq_refl (fun l => eq_refl))). Qed.
+Print Assumptions C11_planar_pattern.
+
+(* Quintant triangles (resolution 1), f64 rotation matrices. *)
+Theorem C11_planar_quintant_outline : forall q : Z, (0 <= q <= 4)%Z ->
+  exists l, get_quintant_vertices QInst q = Some l /\
+    length l = 3%nat /\ 0 < get_area QInst l /\ shoelace l < 0 /\
+    Forall (fun v => Forall (fun c => 0 <= c) (crosses QInst l v)) l /\
+    vertex_signs l = pat 3 /\
+    Forall (fun c => 0 < c) (crosses QInst l (get_center QInst l)) /\
+    contains_point QInst l (get_center QInst l) = Some true.
+Proof. exact quintant_triangle_facts. Qed.
+Print Assumptions C11_planar_quintant_outline.
+
+(* Face pentagon (resolution 0). *)
+Theorem C11_planar_face_outline :
+  exists l, get_face_vertices QInst = Some l /\
+    length l = 5%nat /\ 0 < get_area QInst l /\ shoelace l < 0 /\
+    Forall (fun v => Forall (fun c => 0 <= c) (crosses QInst l v)) l /\
+    vertex_signs l = pat 5 /\
+    Forall (fun c => 0 < c) (crosses QInst l (get_center QInst l)) /\
+    contains_point QInst l (get_center QInst l) = Some true.
+Proof. exact face_pentagon_facts. Qed.
+Print Assumptions C11_planar_face_outline.
+
+(* Subdivision of a clockwise (get_area > 0) convex outline: not re-wound, same signed area, every point on the
+   boundary.  ([subdivide l n] is split_from started at the first vertex.) *)
+Theorem C11_planar_subdivision : forall (l : list (Q * Q)) (n : nat) (l' : list (Q * Q)),
+  0 < get_area QInst l ->
+  Forall (fun v => Forall (fun c => 0 <= c) (crosses QInst l v)) l ->
+  split_edges QInst l n = Some l' ->
+  l' = (if Nat.leb n 1 then l else match l with [] => [] | a :: _ => split_from QInst a l n end) /\
+  get_area QInst l' == get_area QInst l /\
+  (forall p, In p l' ->
+     Forall (fun c => 0 <= c) (crosses QInst l p) /\ Exists (fun c => c == 0) (crosses QInst l p)).
+Proof. exact split_edges_good. Qed.
+Print Assumptions C11_planar_subdivision.
+
+(* All of it for the outline of a cell as get_pentagon (cell.rs) computes it: any cell record with resolution >= 0. *)
+Theorem C11_planar_cell : forall (c : cell) (n : nat), (0 <= resolution c)%Z ->
+  exists pent sp, get_pentagon QInst c = Some pent /\
+    (length pent = nverts c /\ 0 < get_area QInst pent /\ shoelace pent < 0 /\
+     Forall (fun v => Forall (fun c => 0 <= c) (crosses QInst pent v)) pent /\
+     vertex_signs pent = pat (nverts c) /\
+     Forall (fun c => 0 < c) (crosses QInst pent (get_center QInst pent)) /\
+     contains_point QInst pent (get_center QInst pent) = Some true) /\
+    split_edges QInst pent n = Some sp /\
+    sp = (if Nat.leb n 1 then pent else subdivide pent n) /\
+    get_area QInst sp == get_area QInst pent /\
+    (forall p, In p sp ->
+       Forall (fun c => 0 <= c) (crosses QInst pent p) /\ Exists (fun c => c == 0) (crosses QInst pent p)).
+Proof. exact cell_outline_facts. Qed.
+Print Assumptions C11_planar_cell.
+
+(* A point strictly inside the outline is strictly inside the subdivided outline. *)
+Theorem C11_planar_subdivision_inside : forall (l : list (Q * Q)) (n : nat) (l' : list (Q * Q)) (w : Q * Q),
+  0 < get_area QInst l -> split_edges QInst l n = Some l' ->
+  Forall (fun c => 0 < c) (crosses QInst l w) -> Forall (fun c => 0 < c) (crosses QInst l' w).
+Proof. exact split_edges_inside. Qed.
+Print Assumptions C11_planar_subdivision_inside.
+
+(* The planar ring of any cell (subdivided outline, any n) is clockwise and has the outline's centre strictly inside. *)
+Theorem C11_planar_centre_in_ring : forall (c : cell) (n : nat), (0 <= resolution c)%Z ->
+  exists pent sp, get_pentagon QInst c = Some pent /\ split_edges QInst pent n = Some sp /\
+    0 < get_area QInst sp /\
+    Forall (fun c => 0 < c) (crosses QInst sp (get_center QInst pent)) /\
+    contains_point QInst sp (get_center QInst pent) = Some true.
+Proof. exact cell_centre_in_subdivided. Qed.
+Print Assumptions C11_planar_centre_in_ring.
+
+(* List level, any number instance: the open ring is the reverse of the unprojected, longitude-normalised,
+   subdivided outline. *)
+Theorem C11_ring_reversed_outline :
+  forall (T : Type) (OP : ops T) (id : Z) (segs : option Z) (ring : list (T * T)),
+  cell_to_boundary OP id segs false = Some (Ok ring) -> get_resolution id <> (-1)%Z ->
+  exists c pent sp pts nb,
+    deserialize id = Ok c /\ get_pentagon OP c = Some pent /\
+    split_edges OP pent (Z.to_nat (segs_of segs c)) = Some sp /\
+    Forall2 (fun v p => unproject OP c v = Some p) sp pts /\
+    Forall2 (fun p q => shifted360 OP (fst p) (fst q) /\ snd q = snd p) pts nb /\
+    ring = rev nb.
+Proof. exact (@ring_is_reversed_outline). Qed.
+Print Assumptions C11_ring_reversed_outline.
